@@ -455,9 +455,6 @@ func TestCMACPRF(t *testing.T) {
 			}
 			rt.Fatalf("AES-CMAC-PRF key=%x route=%s: construction failed at %s: %v", keyBytes, route, stage, err)
 		}
-		if kl == 16 && route != "subtle" {
-			rt.Fatalf("AES-CMAC-PRF with a 16-byte key was built through route %s although ValidateAESCMACPRFParams documents 32 only", route)
-		}
 		n := c.check(rt, x)
 		c.record(x, n, fmt.Sprintf("/aes%d/in%%16=%s", kl*8, blockRel(len(x), 16)))
 	})
@@ -708,14 +705,18 @@ func TestComputeHKDFHelper(t *testing.T) {
 
 // --- out of domain ------------------------------------------------------------------------------
 
-// TestPRFOutOfDomain: parameters outside what the constructors document fail with an error at some
-// construction stage (never a panic, never a usable primitive).
+// TestPRFOutOfDomain: parameters the constructors document as invalid fail with an error at some
+// construction stage, never a panic. Three kinds are only half outside: the key object accepts them
+// and only the primitive constructor refuses them today (HKDF-PRF with SHA1/224/384, HKDF-PRF keys of
+// 16..31 bytes, AES-CMAC-PRF with a 16-byte key); for those either a clean refusal or a primitive
+// that passes the whole C15 oracle is fine.
 func TestPRFOutOfDomain(t *testing.T) {
 	rapid.Check(t, func(rt *rapid.T) {
 		detrand.Seed(rapid.Uint64().Draw(rt, "entropy"))
 		kind := rapid.SampledFrom([]string{"hmac-shortkey", "hkdf-shortkey", "hkdf-hash", "cmac-16", "cmac-size", "cmac-subtle-size", "subtle-hash", "helper-hash", "unknown-hashtype"}).Draw(rt, "kind")
 		route := rapid.SampledFrom(keyRoutes).Draw(rt, "route")
 		var err error
+		var built *prfCase // set for the kinds where only the primitive constructor (not the key object) refuses
 		detail := ""
 		switch kind {
 		case "hmac-shortkey":
@@ -727,14 +728,18 @@ func TestPRFOutOfDomain(t *testing.T) {
 			kl := rapid.IntRange(0, 31).Draw(rt, "kl")
 			hs := hashNamed(rapid.SampledFrom(hkdfKeyHashes).Draw(rt, "hash"))
 			detail = fmt.Sprintf("%s key=%d", hs.name, kl)
-			_, err = buildHKDFPRF(rt, hs, make([]byte, kl), nil, route)
+			var c *prfCase
+			c, err = buildHKDFPRF(rt, hs, gen.BytesN(rt, "key", kl), nil, route)
+			if err == nil && kl >= 16 {
+				built = c
+			}
 		case "hkdf-hash":
 			hs := hashNamed(rapid.SampledFrom([]string{"SHA1", "SHA224", "SHA384"}).Draw(rt, "hash"))
 			detail = hs.name
-			_, err = buildHKDFPRF(rt, hs, make([]byte, 32), nil, route)
+			built, err = buildHKDFPRF(rt, hs, gen.BytesN(rt, "key", 32), drawSalt(rt, "salt"), route)
 		case "cmac-16":
 			detail = "key=16"
-			_, _, err = buildCMACPRF(rt, make([]byte, 16), route)
+			built, _, err = buildCMACPRF(rt, gen.BytesN(rt, "key", 16), route)
 		case "cmac-size":
 			kl := rapid.IntRange(0, 70).Draw(rt, "kl")
 			if kl == 16 || kl == 32 {
@@ -775,6 +780,13 @@ func TestPRFOutOfDomain(t *testing.T) {
 			} else {
 				_, err = hmacprf.NewParameters(32, hmacprf.UnknownHashType)
 			}
+		}
+		if err == nil && built != nil {
+			// The key object is constructible and only the primitive constructor refuses it today. C15
+			// does not demand the refusal; if a primitive comes out it must be the standard function.
+			built.check(rt, gen.Bytes(rt, "input", 256))
+			evid.Case("outofdomain/"+kind+"/"+route+"/built", true, evid.NewH().S(kind).S(detail).S(route).S("built").Sum(), func() any { return kind + " " + detail + ": built and correct" })
+			return
 		}
 		if err == nil {
 			rt.Fatalf("out-of-domain PRF parameters accepted: %s %s route=%s", kind, detail, route)
